@@ -19,22 +19,20 @@ func init() {
 func checkC02(c *Ctx) {
 	fr := newFmtRun(c)
 	t0 := time.Now()
-	if err := fr.genTrees(); err != nil {
-		c.Infra(err)
-		return
-	}
-	t1 := time.Now()
+	genWait := fr.genStart() // the TLC generator runs while the sources that do not depend on it are recorded
 	fr.pinned()
 	fr.randomPrograms(c.Pick(600, 6000))
 	if err := fr.shippedAndMutations(c.Pick(400, 4000)); err != nil {
 		c.Infra(err)
 		return
 	}
-	t2 := time.Now()
-	var extra []J
-	for i, r := range fr.fnItems {
-		extra = append(extra, r.lawJSON(1000000+i))
+	t1 := time.Now()
+	if err := genWait(); err != nil {
+		c.Infra(err)
+		return
 	}
+	t2 := time.Now()
+	extra, fnID := fr.fnLawRecords(1000000)
 	// binding self-test: a record whose re-parsed dump is perturbed must be rejected by the trace spec
 	sab := -1
 	for _, it := range fr.items {
@@ -62,7 +60,7 @@ func checkC02(c *Ctx) {
 	fr.report("C02", verdicts)
 	fnClusters := map[string]int{}
 	for i, r := range fr.fnItems {
-		ok, seen := other[1000000+i]
+		ok, seen := other[fnID[i]]
 		if !seen {
 			c.Infra(fmt.Errorf("no verdict for function value record %d", i))
 			return
@@ -85,7 +83,7 @@ func checkC02(c *Ctx) {
 	if os.Getenv("VERIF_FMT_DUMP") != "" {
 		fmt.Println("FN clusters:", fnClusters)
 	}
-	c.Note("wall: GEN+records %.1fs, random+mutations %.1fs, TLC validation %.1fs, attribution %.1fs", t1.Sub(t0).Seconds(), t2.Sub(t1).Seconds(), t3.Sub(t2).Seconds(), time.Since(t3).Seconds())
+	c.Note("wall: random+mutations (GEN running) %.1fs, GEN rest+records %.1fs, TLC validation %.1fs, attribution %.1fs", t1.Sub(t0).Seconds(), t2.Sub(t1).Seconds(), t3.Sub(t2).Seconds(), time.Since(t3).Seconds())
 	fmt.Println(c.notes[len(c.notes)-1])
 }
 
